@@ -5,7 +5,7 @@ from . import core, httpgen as hg, grpc_gen as gg
 
 INVS = "AcceptedOnlyIfNumbered WellFormed NotInMessage LocationPartition DeliveredIntact InvokedIffValid ResultIntact ResponsePartition ClientRejectsInvalidResult"
 DEVIATIONS = ["int.narrowed_to_32_bits", "tags.oneof_members_unchecked", "tags.unchecked_with_metadata", "tags.nested_types_unchecked",
-              "validate.oneof_members_skipped", "validate.required_oneof_unchecked", "validate.metadata_list_elements_skipped"]
+              "validate.absent_collection_length", "validate.oneof_members_skipped", "validate.required_oneof_unchecked", "validate.metadata_list_elements_skipped"]
 
 
 def gen_vectors(ctx, fam, deviations="{}", label=None):
@@ -49,7 +49,9 @@ def run_family(ctx, fam, vectors, per_design=40):
     pl.reset()
     pl.prepare(designs)
     run_needed = fam != "wf"
+    ctx.log("%s: generated and compiled %d designs" % (fam, len(designs)))
     bins = pl.build_runners(designs) if run_needed else {}
+    ctx.log("%s: built %d runners" % (fam, len(bins)))
     ctx.log("%s: %d vectors, %d method shapes, %d designs (%d unusable), %d methods set aside as uncompilable" % (
         fam, len(vectors), len(shapes), len(designs), len(pl.failed), len(pl.bad_methods)))
     scen, meta, cases = {}, {}, []
@@ -67,7 +69,7 @@ def run_family(ctx, fam, vectors, per_design=40):
                 "uncompilable": pl.bad_methods.get((di, mname)), "unusable": pl.failed.get(di)}
         cases.append(case)
         if run_needed and di in bins and (di, mname) not in pl.bad_methods:
-            scen.setdefault(di, []).append(gg.scenario_for(v, case["id"], svc, gometh, mname))
+            scen.setdefault(di, []).append(gg.scenario_for(v, case["id"], "d%d/%s" % (di, svc), gometh, mname))
             meta[case["id"]] = case
     if run_needed:
         events = pl.run_all(bins, scen)
